@@ -111,7 +111,7 @@ def UdfConformance(tier):
     if key not in seen:
       seen.add(key)
       uniq.append(b)
-  lines = c20udf.Replay(uniq, c20udf.TIER_INTERP[tier])
+  lines = c20udf.Replay(uniq, c20udf.TIER_INTERP[tier], rotate=(tier == 'quick'))
   res['t_replay'] = clock() - res['t_model']
   shards = max(1, min(common.NCPU, len(lines) // 6500 + 1))
   verdicts, counters, states, errors = c20udf.Judge(lines, 'c20udf',
